@@ -16,6 +16,7 @@ import json
 import re
 
 import vlib
+import _tlcout
 
 
 def run(c):
@@ -27,10 +28,8 @@ def run(c):
         trace = c.scratch + "/lookup.ndjson"
         c.run_driver(drv, ["-n", 600 if c.thorough else 60, "-lookups", 6 if c.thorough else 5, "-out", trace])
     r = c.validate("PathLookupTrace", "PathLookupTrace.cfg", trace, timeout=3000)
+    drift = _tlcout.renorm(r)
     c.judge_trace(r, trace)
-    drift = {}
-    for m in re.finditer(r'<<"VERIF-DRIFT", (\d+), "([^"]*)">>', r.out):
-        drift[m.group(2)] = drift.get(m.group(2), 0) + 1
     if drift:
         c.notes.append("MODEL-DRIFT (not a verdict): %s" % drift)
     st = r.stats
